@@ -26,6 +26,6 @@ ReuseInit ==
   /\ recs = [r \in RID |-> IF r <= 2 THEN [live |-> TRUE, fd |-> r, ref |-> 1, subs |-> <<r>>] ELSE DeadRec]
   /\ pool = <<>> /\ ready = [fd \in FD |-> IF fd <= 2 THEN {"R"} ELSE {}] /\ closed = [fd \in FD |-> FALSE]
   /\ phase = "idle" /\ rlist = {} /\ cur = NoCur /\ copy = <<>> /\ run = 0 /\ opsLeft = 0 /\ passes = 0
-  /\ pins = {} /\ pollReady = [fd \in FD |-> {}] /\ cbEn = FALSE /\ viol = {}
+  /\ pins = {} /\ timer = "off" /\ bad = FALSE /\ pollReady = [fd \in FD |-> {}] /\ cbEn = FALSE /\ viol = {}
 ReuseSpec == ReuseInit /\ [][Poll \/ DoNextFd \/ DoSub \/ DoCbOp \/ CbReturn \/ FinishFd \/ EndPass]_vars
 ====
